@@ -10,7 +10,9 @@ EXTENDS Deser, Json, SequencesExt
 
 CONSTANTS GenWhat, GenPart, GenParts
 
-ProgSeq == SetToSeq(Programs \cup ZeroWidthPrograms)
+\* zero-width element programs are NOT exported: for elements that consume no input the count is not "a length field that exceeds
+\* what the remaining input could hold" (the statement of C02 does not cover them; see DESIGN.md, false alarms corrected)
+ProgSeq == SetToSeq(Programs)
 Mine == {ProgSeq[i] : i \in {j \in 1..Len(ProgSeq) : j % GenParts = GenPart}}
 OutJ(o) == [ok |-> o.ok, vals |-> o.vals, off |-> o.off, errs |-> SetToSeq(o.errs)]
 
